@@ -2,14 +2,15 @@ SPECIFICATION Spec
 CONSTANTS ZMax = 2
           NoYGuard = FALSE
           XBandLeftOpen = FALSE
-          NMin = 1
+          NMin = 4
           N = 4
           GapMax = 2
-          HMax = 2
+          HMax = 1
           WMax = 2
           HBMin = 1
-          HBMax = 2
+          HBMax = 1
 INVARIANT ResultOk
 INVARIANT SelectedSeparated
 INVARIANT RemainingOutside
 INVARIANT RoundBound
+PROPERTY Terminates
